@@ -23,6 +23,9 @@ func init() {
 			c.ruleFixedRT("R-FIXED-RT")
 			c.ruleZigZag("R-ZIGZAG-BIJ")
 			c.ruleTagBij("R-TAG-BIJ")
+			c.ruleBytesPrefix("R-BYTES-PREFIX")
+			c.ruleLenPrefixConsistent("R-LENPREFIX-CONSISTENT", []string{"encoding/protowire"}, 2)
+			c.ruleDepthPerLevel("R-DEPTH-PER-LEVEL")
 		},
 	})
 	register(&Property{
@@ -38,6 +41,9 @@ func init() {
 			c.ruleNegLen("R-NEG-LEN", []string{"encoding/protowire"}, map[string]string{}, 8)
 			c.ruleRecursionGuard(recScope{Rule: "R-RECURSION-GUARD", Pkgs: []string{"encoding/protowire"}, Floor: 1})
 			c.ruleDecodeTagRange("R-DECODETAG-RANGE")
+			c.ruleLenNarrowGuarded("R-LEN-NARROW-GUARDED", "encoding/protowire", 1)
+			c.ruleConsumeTagExact("R-CONSUMETAG-EXACT")
+			c.ruleDepthPerLevel("R-DEPTH-PER-LEVEL")
 		},
 	})
 }
